@@ -153,3 +153,18 @@ package webp
 //@   callsite writeRIFFSimple: assert len(alphaData) == 0 && (opts == nil || (len(opts.ICC) == 0 && len(opts.EXIF) == 0 && len(opts.XMP) == 0))
 //@   callsite writeRIFFExtended: assert arg1 == fourcc && arg2 == bitstream && arg3 == alphaData && arg4 == width && arg5 == height
 //@   callsite writeRIFFExtended: assert opts != nil ==> arg6 == opts.ICC && arg7 == opts.EXIF && arg8 == opts.XMP
+//
+// ---- C18: a lossy animation frame carries its alpha plane ----
+//
+// When the lossy encoder produced alpha data for the frame, the payload handed
+// to the muxer starts with an ALPH chunk holding exactly those bytes (the form
+// mux.splitAlphaAndBitstream takes apart), followed by the VP8 bitstream.
+//@ func encodeFrameForAnimation
+//@   property C18
+//@   requires img != nil
+//@   modifies *
+//@   abstract encodeLossless, encodeLossyWithAlpha
+//@   ensures result1 == nil && !isLossless && len(alphaData) > 0 ==> len(result0) >= 8 + len(alphaData) && result0[0] == 'A' && result0[1] == 'L' && result0[2] == 'P' && result0[3] == 'H'
+//@   ensures result1 == nil && !isLossless && len(alphaData) > 0 && len(alphaData) < 0x40000000 ==> int(result0[4]) | int(result0[5])<<8 | int(result0[6])<<16 | int(result0[7])<<24 == len(alphaData)
+//@   ensures result1 == nil && !isLossless && len(alphaData) > 0 && len(alphaData) < 0x40000000 ==> forall k int :: 0 <= k && k < len(alphaData) ==> result0[8+k] == alphaData[k]
+//@   ensures result1 == nil && !isLossless && len(alphaData) > 0 && len(alphaData) < 0x40000000 ==> len(result0) == 8 + len(alphaData) + (len(alphaData) & 1) + len(bs)
